@@ -4,3 +4,4 @@ import AnonCreds.Model.Wire
 import AnonCreds.Props.C18
 import AnonCreds.Props.C20
 import AnonCreds.Props.C14
+import AnonCreds.Props.C13
